@@ -52,6 +52,12 @@ class FakeSocket:
         # fault injection for writes performed *by this endpoint*
         self.fail_after: Optional[int] = None  # raise after this many more bytes were written
         self.fail_exc = BrokenPipeError
+        # a slow reader: the peer's receive window has room for `slow_after` more bytes, then the reader pauses for longer
+        # than any finite send timeout before it goes on reading.  A blocking write simply completes (later); a write on a
+        # socket with a timeout hands over what fits and raises socket.timeout - once.
+        self.slow_after: Optional[int] = None
+        self.timeout: Optional[float] = None
+        self.timeouts_raised = 0
         self.peer_gone_mode = "silent"  # what a write to a closed peer does: silent|epipe|reset|first-ok
         self._writes_to_gone = 0
         self.sent_total = 0
@@ -84,10 +90,13 @@ class FakeSocket:
         return -1 if self.closed else self.sid + 1000
 
     def settimeout(self, t):
-        pass
+        self.timeout = t
+
+    def gettimeout(self):
+        return self.timeout
 
     def setblocking(self, b):
-        pass
+        self.timeout = None if b else 0.0
 
     # -- client side -------------------------------------------------------------------------
     def connect(self, addr):
@@ -125,6 +134,23 @@ class FakeSocket:
             self.fail_after -= len(data)
         if not data:
             return None  # a zero-length send does nothing on a stream socket
+        if self.slow_after is not None and not peer.closed:
+            if len(data) > self.slow_after:
+                room, self.slow_after = self.slow_after, None
+                if self.timeout is not None:
+                    import socket as _real_socket
+
+                    part = data[:room]
+                    if peer.inflight:
+                        peer.inflight += part
+                    else:
+                        peer.rx += part
+                    self.sent_total += len(part)
+                    self.timeouts_raised += 1
+                    raise _real_socket.timeout("timed out")
+                # blocking socket: the write completes once the reader has caught up
+            else:
+                self.slow_after -= len(data)
         if peer.closed:
             mode = self.peer_gone_mode
             self._writes_to_gone += 1
